@@ -1,4 +1,5 @@
 import Coraza.Model.Operators
+import Coraza.Model.IpMatch
 /-! Driver engine `op`: `op <name> <arg> <value> => 0|1|ERR` (direct operator call, no negation) -/
 namespace Driver.Op
 open Coraza Coraza.Op
@@ -23,6 +24,7 @@ def eval (name : String) (arg v : Bytes) : Option Bool :=
   | "pm" => if allAscii arg then some (pm arg v) else Option.none
   | "unconditionalMatch" => some true
   | "noMatch" => some false
+  | "ipMatch" => if allAscii arg then some (ipMatch arg v) else Option.none
   | _ => Option.none
 
 /-- `none` = outside the modelled fragment; `some none` = factory error -/
@@ -48,6 +50,7 @@ def run (name : String) (arg v : Bytes) : Option (Option Bool) :=
   | "pm" => if allAscii arg then some (some (pm arg v)) else Option.none
   | "unconditionalMatch" => some (some true)
   | "noMatch" => some (some false)
+  | "ipMatch" => if allAscii arg then some (some (ipMatch arg v)) else Option.none
   | _ => Option.none
 
 def render : Option Bool → String
